@@ -24,5 +24,7 @@ PROPS["C11"] = dict(
     must_count=["messages_sent", "messages_within_64_of_limit", "messages_with_shared_attributes", "cases_with_repeated_key",
                 "cases_with_2plus_messages", "eor_out", "cases_extended_message", "family_cases_addpath_on", "family_cases_addpath_off"],
     units=[dict(name="table", harness="t_table", files=["common_", "c11_"], run="TestVerifC11",
+                shards=dict(quick=16, thorough=16), timeout_s=dict(quick=900, thorough=7200)),
+           dict(name="e2e", harness="t_server", files=["sim_", "e2e_"], run="TestVerifE2E_C11",
                 shards=dict(quick=16, thorough=16), timeout_s=dict(quick=900, thorough=7200))],
 )
